@@ -68,6 +68,15 @@ def programs(tier, b):
                         ra, rb = B.opnd(("F", [x, 2])), B.opnd((kb, [y, 2]))
                         B.add({"op": "meth", "name": nm, "a": ra, "args": [rb], "tag": "main"})
                     add("b%d/fxp/%s/F%s/%d,%d" % (b, nm, kb, x, y), {"op": nm, "kinds": "F" + kb, "a": x, "b": y, "n": b}, build)
+    # ... with a boolean-typed or integer-typed secret on the right: it is lifted to fixed point (representation value * 2^resolution)
+    for nm in gen.ASSERT2:
+        for x in range(-3, 5):
+            for (kb, vals) in (("SB", (0, 1)), ("S", (-1, 0, 1, 2))):
+                for y in vals:
+                    def build(B, nm=nm, x=x, y=y, kb=kb):
+                        ra, rb = B.opnd(("F", [x, 2])), B.opnd((kb, y))
+                        B.add({"op": "meth", "name": nm, "a": ra, "args": [rb], "tag": "main"})
+                    add("b%d/fxp/%s/F%s/%d,%d" % (b, nm, kb, x, y), {"op": nm, "kinds": "F" + kb, "a": x, "b": 2 * y, "n": b}, build)
     # declaring a value boolean
     for fn in ("LinCombBool", "ensurebool"):
         for a in (-1, 0, 1, 2):
